@@ -511,3 +511,6 @@ def run(S):
     rule_iso(S)
     rule_atom(S)
     rule_unq(S)
+    # 'exactly one of several concurrent creates succeeds' rests on the unique insert of put (shared with C01)
+    from checks import shared
+    shared.writers_revalidate(S)
